@@ -137,7 +137,12 @@ def run(ctx: Ctx) -> None:
     rt_cases = total['evals']
 
     # ------------------------------------------------------------ B
+    leaves = QUICK_LEAVES if quick else FULL_LEAVES
     tasks = [('num',), ('misc',), ('shadow',), ('e01', FULL_LEAVES)]
+    # depth-2 expressions whose left operand is a leaf ("2^-2", "2*(2+pi)",
+    # "pi/sin(2)" ...) always complete; the rest runs under a time cap below
+    tasks += [('e2', leaves, ai, op) for ai in range(len(leaves))
+              for op in L.BINOPS]
     tasks += [('gd1', i, 16) for i in range(16)]
     for lay in W.LAYOUTS:
         for creg in (('none', 'last') if quick
@@ -162,9 +167,9 @@ def run(ctx: Ctx) -> None:
             tasks += [('b2', lay, 3, i, True, seed) for i in range(nA)]
         _stage(ctx, 'programs-three-statements', tasks, total, budget=240)
 
-    leaves = QUICK_LEAVES if quick else FULL_LEAVES
     nO = len(L.operands(list(leaves)))
-    tasks = [('e2', leaves, ai, op) for ai in range(nO) for op in L.BINOPS]
+    tasks = [('e2', leaves, ai, op) for ai in range(len(leaves), nO)
+             for op in L.BINOPS]
     _stage(ctx, 'programs-expressions-depth-2', tasks, total,
            budget=20 if quick else 240)
 
